@@ -11,9 +11,10 @@ import (
 	"bytes"
 	"context"
 	"encoding/binary"
-	"os"
-	"strconv"
 	"fmt"
+	"os"
+	"regexp"
+	"strconv"
 	"strings"
 	"sync"
 	"testing"
@@ -65,6 +66,8 @@ type node struct {
 	mrc    rcModel
 	mmc    mcModel
 	mfs    fsModel
+	sk     sock.Config
+	msk    []string // model of a sock.Config: "host:port" in order
 	snap   string
 	parent int
 	how    string
@@ -73,14 +76,15 @@ type node struct {
 func snapshot(n *node) string {
 	switch n.kind {
 	case "rc":
-		return fmt.Sprintf("%#v", n.rc)
+		return fmt.Sprintf("%#v", n.rc) + "\n deep: " + deepSnap(n.rc)
 	case "mc":
-		return fmt.Sprintf("%#v", n.mc)
+		return fmt.Sprintf("%#v", n.mc) + "\n deep: " + deepSnap(n.mc)
+	case "sk":
+		return deepSnap(n.sk)
 	default:
-		return fmt.Sprintf("%#v", n.fs)
+		return fmt.Sprintf("%#v", n.fs) + "\n deep: " + deepSnap(n.fs)
 	}
 }
-
 
 func cleanGuest(p string) string {
 	// mirror of the documented normalisation: leading "/" and "./" and trailing "/" ignored
@@ -148,6 +152,7 @@ func newTree() *tree {
 	tr.add(&node{kind: "rc", rc: wazero.NewRuntimeConfigInterpreter(), mrc: rcModel{features: api.CoreFeaturesV2, limit: 65536}, parent: -1, how: "NewRuntimeConfigInterpreter"})
 	tr.add(&node{kind: "mc", mc: wazero.NewModuleConfig(), parent: -1, how: "NewModuleConfig"})
 	tr.add(&node{kind: "fs", fs: wazero.NewFSConfig(), parent: -1, how: "NewFSConfig"})
+	tr.add(&node{kind: "sk", sk: sock.NewConfig(), parent: -1, how: "sock.NewConfig"})
 	return tr
 }
 
@@ -199,6 +204,35 @@ func (tr *tree) apply(s step) string {
 		return tr.useMC(s.Node, arg(0) == "sock")
 	case "use-rc":
 		return tr.useRC(s.Node)
+	case "use-sk":
+		return tr.useSK(s.Node)
+	}
+	if s.Op == "sk.WithTCPListener" && p.kind == "sk" {
+		// args: host, port, repeat (a chain of derivations, every intermediate value is kept)
+		rep := atoi(arg(2))
+		if rep < 1 {
+			rep = 1
+		}
+		cur, curi := p, s.Node
+		for r := 0; r < rep && r < 8; r++ {
+			host, port := arg(0), atoi(arg(1))
+			if r > 0 {
+				if strings.HasPrefix(host, "127.0.0.") {
+					host = fmt.Sprintf("127.0.%d.%s", r, host[8:]) // still loopback, still bindable
+				} else {
+					host = fmt.Sprintf("%s.%d", arg(0), r)
+				}
+			}
+			c := cur.sk.WithTCPListener(host, port)
+			m := append(append([]string{}, cur.msk...), fmt.Sprintf("%s:%d", host, port))
+			tr.noteChild(curi, s.Op)
+			curi = tr.add(&node{kind: "sk", sk: c, msk: m, parent: curi, how: fmt.Sprintf("WithTCPListener(%s,%d)", host, port)})
+			cur = tr.nodes[curi]
+			if got := sockAddrs(cur.snap); !eqStrs(got, m) {
+				return fmt.Sprintf("sock configuration node %s holds listeners %v, its derivation chain predicts %v", tr.describe(curi), got, m)
+			}
+		}
+		return ""
 	}
 	if strings.HasPrefix(s.Op, "mc.") && p.kind == "mc" {
 		m := p.mmc
@@ -340,8 +374,14 @@ func (tr *tree) apply(s step) string {
 }
 
 func (tr *tree) genStep(t *rapid.T) step {
-	kind := rapid.SampledFrom([]string{"mc", "mc", "mc", "fs", "fs", "rc", "use-mc", "use-mc", "use-rc"}).Draw(t, "kind")
+	kind := rapid.SampledFrom([]string{"mc", "mc", "mc", "fs", "fs", "rc", "use-mc", "use-mc", "use-rc", "sk", "sk", "use-sk"}).Draw(t, "kind")
 	switch kind {
+	case "sk":
+		host := rapid.SampledFrom([]string{"127.0.0.1", "127.0.0.2", "127.0.0.3", "h"}).Draw(t, "host")
+		port := rapid.SampledFrom([]int{0, 0, 0, 80}).Draw(t, "port")
+		return step{"sk.WithTCPListener", tr.pick(t, "sk"), []string{host, fmt.Sprint(port), fmt.Sprint(rapid.IntRange(1, 4).Draw(t, "repeat"))}}
+	case "use-sk":
+		return step{"use-sk", tr.pick(t, "sk"), nil}
 	case "mc":
 		pi := tr.pick(t, "mc")
 		method := rapid.SampledFrom([]string{"WithEnv", "WithEnv", "WithEnv", "WithEnv", "WithArgs", "WithArgs", "WithName", "WithFSConfig", "WithFSConfig", "WithFS", "WithStdin", "WithStdout", "WithStderr",
@@ -428,7 +468,6 @@ func (tr *tree) describe(i int) string {
 }
 
 // ---- behavioural probes ----
-
 
 func readStrings(p *wasiproxy.Proxy, ctx context.Context, sizes, get string) ([]string, string) {
 	mem := p.Mem
@@ -605,6 +644,56 @@ func (tr *tree) useMC(i int, withSock bool) string {
 	return ""
 }
 
+var sockAddrRE = regexp.MustCompile(`Host:"([^"]*)", Port:(\d+)`)
+
+// sockAddrs extracts the listener list from the deep snapshot of a sock.Config.
+func sockAddrs(snap string) []string {
+	var out []string
+	for _, m := range sockAddrRE.FindAllStringSubmatch(snap, -1) {
+		out = append(out, m[1]+":"+m[2])
+	}
+	return out
+}
+
+// useSK instantiates a WASI guest with the listeners of the node (only when every listener
+// can really be bound: loopback address, port 0) and counts the pre-opened sockets.
+func (tr *tree) useSK(i int) string {
+	n := tr.nodes[i]
+	if n.kind != "sk" {
+		return ""
+	}
+	for _, a := range n.msk {
+		if !strings.HasPrefix(a, "127.0.") || !strings.HasSuffix(a, ":0") || strings.Count(a, ".") != 3 {
+			return ""
+		}
+	}
+	tr.uses++
+	evid.Label(fmt.Sprintf("use-sock-config-%d-listeners", len(n.msk)), 1)
+	ctx := context.Background()
+	rt := wazero.NewRuntimeWithConfig(ctx, wazero.NewRuntimeConfigInterpreter())
+	defer rt.Close(ctx)
+	p, err := wasiproxy.New(sock.WithConfig(ctx, n.sk), rt, wazero.NewModuleConfig(), 1, -1)
+	if err != nil {
+		return fmt.Sprintf("using sock node %s failed: %v", tr.describe(i), err)
+	}
+	cnt := 0
+	for fd := uint64(3); fd < 64; fd++ {
+		// fd_fdstat_get: filetype at offset 0; socket_stream = 6
+		e, out := p.Call(ctx, "fd_fdstat_get", fd, 0)
+		if out.Kind != wz.KOK {
+			return "fd_fdstat_get: " + out.String()
+		}
+		if e != 0 {
+			break
+		}
+		cnt++
+	}
+	if cnt != len(n.msk) {
+		return fmt.Sprintf("guest instantiated with sock node %s sees %d pre-opened sockets, its derivation chain predicts %d", tr.describe(i), cnt, len(n.msk))
+	}
+	return ""
+}
+
 var probeMem = func() []byte {
 	m := &wasmenc.Module{Mems: [][]byte{wasmenc.Limits(3, -1, false)}, Customs: []wasmenc.Custom{{Name: "x", Data: []byte{1}}}}
 	return m.Encode()
@@ -687,7 +776,7 @@ func TestTree(t *testing.T) {
 	if evid.ReplayPath() != "" {
 		t.Skip()
 	}
-	evid.Check(t, "derivation-tree", evid.Scale(2400, 120000), runTree)
+	evid.Check(t, "derivation-tree", evid.Scale(12000, 240000), runTree)
 }
 
 // TestConcurrentDerive derives from one parent in several goroutines (meaningful under
@@ -705,11 +794,18 @@ func TestConcurrentDerive(t *testing.T) {
 			want = append(want, envKeys[i]+"=0")
 		}
 		fsb := wazero.NewFSConfig().WithFSMount(mounts()[0], "/a")
-		snapM, snapF := fmt.Sprintf("%#v", base), fmt.Sprintf("%#v", fsb)
+		skb := sock.NewConfig()
+		var wantSK []string
+		for i, nsk := 0, rapid.IntRange(0, 7).Draw(t, "nsock"); i < nsk; i++ {
+			skb = skb.WithTCPListener("base", i)
+			wantSK = append(wantSK, fmt.Sprintf("base:%d", i))
+		}
+		snapM, snapF, snapS := fmt.Sprintf("%#v", base)+deepSnap(base), fmt.Sprintf("%#v", fsb)+deepSnap(fsb), deepSnap(skb)
 		g := rapid.IntRange(2, 6).Draw(t, "goroutines")
 		vals := rapid.SliceOfN(rapid.StringMatching("[x-z]{1,2}"), g, g).Draw(t, "vals")
 		keys := rapid.SliceOfN(rapid.SampledFrom(envKeys), g, g).Draw(t, "keys")
 		res := make([]wazero.ModuleConfig, g)
+		resS := make([]sock.Config, g)
 		var wg sync.WaitGroup
 		for i := 0; i < g; i++ {
 			wg.Add(1)
@@ -717,15 +813,26 @@ func TestConcurrentDerive(t *testing.T) {
 				defer wg.Done()
 				res[i] = base.WithEnv(keys[i], vals[i]).WithArgs(vals[i])
 				_ = fsb.WithFSMount(mounts()[i%6], "/b")
+				_ = fsb.WithFSMount(mounts()[i%6], "/a")
+				resS[i] = skb.WithTCPListener(vals[i], 100+i)
 			}(i)
 		}
 		wg.Wait()
-		cs := map[string]any{"nbase": nbase, "keys": keys, "vals": vals}
-		if s := fmt.Sprintf("%#v", base); s != snapM {
+		cs := map[string]any{"nbase": nbase, "nsock": len(wantSK), "keys": keys, "vals": vals}
+		if s := fmt.Sprintf("%#v", base) + deepSnap(base); s != snapM {
 			evid.Fail(t, cs, "base ModuleConfig changed by concurrent derivations:\n before %s\n after  %s", snapM, s)
 		}
-		if s := fmt.Sprintf("%#v", fsb); s != snapF {
+		if s := fmt.Sprintf("%#v", fsb) + deepSnap(fsb); s != snapF {
 			evid.Fail(t, cs, "base FSConfig changed by concurrent derivations")
+		}
+		if s := deepSnap(skb); s != snapS {
+			evid.Fail(t, cs, "base sock.Config changed by concurrent derivations:\n before %s\n after  %s", snapS, s)
+		}
+		for i := 0; i < g; i++ {
+			exp := append(append([]string{}, wantSK...), fmt.Sprintf("%s:%d", vals[i], 100+i))
+			if got := sockAddrs(deepSnap(resS[i])); !eqStrs(got, exp) {
+				evid.Fail(t, cs, "sock.Config child %d derived concurrently holds %v, want %v", i, got, exp)
+			}
 		}
 		ctx := context.Background()
 		for i := 0; i < g; i++ {
@@ -748,7 +855,7 @@ func TestConcurrentDerive(t *testing.T) {
 				evid.Fail(t, cs, "child %d derived concurrently (WithEnv(%s,%s)) observes env %v, want %v", i, keys[i], vals[i], got.Env, exp)
 			}
 		}
-		evid.Case(evid.Hash64(nbase, keys, vals), true, "concurrent")
+		evid.Case(evid.Hash64(nbase, len(wantSK), keys, vals), true, "concurrent")
 		evid.Sample("concurrent", 1, cs)
 	})
 }
